@@ -13,11 +13,7 @@ ASSUMPTIONS = C02.ASSUMPTIONS
 EXHAUSTIVE = {'quick': False, 'thorough': False}
 NO_SHRINK = True
 TECHNIQUE = 'Coq proof (constraint invariant preserved by every checked operation by induction over histories; refused operations change nothing; sanitise re-establishes it) + correspondence on long histories'
-LEVEL_TEXT = ('Theorems in Properties_C05.v about Model/RegTable.v: the invariant "initialised, entries ordered and disjoint, every register wholly inside one area, 16-bit words, every decodable register satisfies '
-              'its constraint" is preserved by every checked set, bit set and bit clear (accepted or refused) with well-typed operands and therefore by every history of them (induction over the history); under it every value a get '
-              'delivers satisfies its register\'s constraint; the frame lemma (a store leaves every register it does not meet untouched) and distinctness of registers in an ordered table; refused operations change nothing; '
-              'bit set/clear change exactly the requested bits.  Correspondence only (partial): histories that also contain block writes and sanitise (one-step theorems: a refused block write changes nothing, a successful one '
-              'validated every overlapped register); registers with the always-failing constraint are outside the invariant by construction.')
+LEVEL_TEXT = ("Theorems in Properties_C05.v about Model/RegTable.v: the invariant 'initialised, areas and entries ordered and disjoint, areas full, every register wholly inside one area, 16-bit words, every decodable register satisfies its constraint' is preserved by EVERY checked operation - typed set, bit set, bit clear, block write across area borders, sanitise - accepted or refused, with well-typed operands, and therefore by every history of them (induction over the history); under it every value a get delivers satisfies its register's constraint; frame lemma, distinctness of registers, read-after-write for the flat word memory; refused operations change nothing; bit set/clear change exactly the requested bits.  Registers with the always-failing constraint are outside the invariant by construction (their default validates only during initialisation).")
 LEVEL_NOTE = 'Trusted: Coq kernel; hand model of registers/core.c (correspondence-tested on long histories incl. corruption + sanitise); validator callbacks assumed pure. No axioms.'
 
 def gen(rng, tier):
